@@ -249,9 +249,6 @@ func (ss *Sorts) sortOf(t types.Type) string {
 	case *types.Interface:
 		return SIface
 	case *types.Slice:
-		if isByteSlice(t) {
-			return SStr // immutable byte strings (DESIGN 2.4 / A-BYTES)
-		}
 		ss.elemSorts[ss.sortOf(u.Elem())] = true
 		return SSlice
 	case *types.Struct:
